@@ -60,6 +60,7 @@ class Model:
             NZ.MULTIPLY_DEFINED[0] = NZ.collect_multiply_defined(list(parsed.values()))
             NZ.INHERITED_HELPERS[0] = NZ.collect_inherited_helpers(parsed, vocab)
             NZ.IMPORTABLE_HELPERS[0] = NZ.collect_importable_helpers(parsed, vocab)
+            NZ.COUNTERS[0] = NZ.collect_counters(list(parsed.values()))
             NZ.REBOUND_SITES[0] = NZ.collect_rebound_sites(list(parsed.values()))
         for rel, tree in parsed.items():
             if True:
